@@ -143,9 +143,10 @@ Proof. exact ParseUsedProof.used_lifetimes_exact. Qed.
 (* likewise the const parameters a field type uses as array lengths (get_array_lens), at any nesting depth *)
 Theorem array_lens_exact : forall t, wf t -> array_lens (embed t) = lens_of t.
 Proof. exact ParseUsedProof.array_lens_exact. Qed.
-(* which TYPE parameters a field type uses (the tests of the struct derive against the type's own path and Type::wraps()): a bare path n
-   is seen everywhere in the type except directly behind a reference that is not the field type itself. This is known finding D8 stated
-   exactly (ParseUsedProof.param_behind_reference_not_seen: Option<&'a T> does not count T, &'a T and Vec<(T, u8)> do). *)
+(* which TYPE parameters a field type uses (the names_param tests of the struct derive against the type's own path and Type::wraps()): since
+   the repair of D8 / D8b, exactly the parameters that are the HEAD of some path occurring anywhere in the type - the type itself, a generic
+   argument, an element of a tuple or array, behind any reference; `T` and `T::Item` both count (ParseUsedProof.param_behind_reference_seen;
+   before the repair the names carried the reference prefix and `Option<&'a T>` did not count T). *)
 Theorem param_used_exact : forall n t, wf t -> param_used n (embed t) = used_spec n t.
 Proof. exact ParseUsedProof.param_used_exact. Qed.
 Local Open Scope string_scope. Local Open Scope list_scope. Local Open Scope bool_scope.
